@@ -259,7 +259,7 @@ theorem san_exact_tlscert {κ : Type} {g : Fixes} (hg : g.comma = true) {encode 
     {pools : List (String × List String)} {peer : Option (PLeaf × List CACert)} {r : AuthRes}
     (hacc : tlsCertAuthenticate pools peer = some r) (himp : req.impersonated = "")
     (h : createCertificateFull g encode srv ctx [r] req now = .ok chain) :
-    ∃ leaf ints u td ns sa roots d, peer = some (leaf, ints) ∧ leaf.uris = [u] ∧ parseIdentity u = some (td, ns, sa) ∧
+    ∃ leaf ints u td ns sa roots d, peer = some (leaf, ints) ∧ leaf.uris = [u] ∧ parseIdentity (urlString u) = some (td, ns, sa) ∧
       poolOf pools td = some roots ∧ chainsTo roots ints (ints.length + 1) leaf.issuer = true ∧
       leafData decode (.ok chain) = some d ∧ d.tmpl.san = leaf.values.map classify := by
   obtain ⟨c, d, hr, hl, hsan⟩ := san_exact_single hg hdec himp h
@@ -277,10 +277,13 @@ theorem firstCaller_single {r : AuthRes} {c : Caller} (h : firstCaller [r.toOut]
     | true => simp [AuthRes.toOut, firstCaller, hi] at h
     | false => simp [AuthRes.toOut, firstCaller, hi] at h; rw [h]
 
-/-- The ambient flow end to end: a certificate issued WITH impersonation to a caller authenticated by
-    the Kubernetes-JWT authenticator implies
-    * the presented token was reviewed (for the configured audiences) by the API server of the cluster
-      the caller named, which reported namespace/service account (ns_c, sa_c), pod name and pod UID;
+/-- The ambient flow end to end (authenticator and gate reading the same `clusterid` metadata of the
+    request, as they do in the real server): a certificate issued WITH impersonation to a caller
+    authenticated by the Kubernetes-JWT authenticator implies
+    * the presented token was reviewed (for the configured audiences) by the API server that
+      `getKubeClient` selects for THE SAME cluster ID whose node authorizer the gate consults (an alias
+      that names the primary cluster while another registered cluster carries the alias as its ID would
+      split the two: configuration observation), which reported namespace/service account (ns_c, sa_c), pod name and pod UID;
     * (ns_c, sa_c) is a trusted node account;
     * in the pod view of the node authorizer active for that cluster the pod of that name in ns_c has
       that UID and runs as sa_c, and a non-Failed pod of the impersonated (ns, sa) with a service
@@ -290,9 +293,11 @@ theorem impersonation_through_kube {κ : Type} {g : Fixes} (hg : g.comma = true)
     (hdec : ∀ d, decode (encode d) = d) {srv : Server} {ctx : Ctx} {req : Request} {now : Int} {chain : List (Entry κ)}
     {t : Transport} {td : String} {cfg : KubeCfg} {hdr : Option (List String)} {vals aud : List String}
     {api : ReviewCall → Review} (himp : req.impersonated ≠ "")
+    -- the authenticator and the gate read the SAME `clusterid` metadata of the one gRPC request
+    (ht : t = .grpc) (hhdr : hdr = ctx.clusterIDs)
     (h : createCertificateFull g encode srv ctx [(kubeAuthenticate t td cfg hdr vals aud api).1] req now = .ok chain) :
     ∃ tok cl k na slot all itd ns sa cp d,
-      extractToken t vals = some tok ∧ getKubeClient cfg (clusterIDOf t hdr) = some cl ∧
+      extractToken t vals = some tok ∧ getKubeClient cfg (clusterID ctx) = some cl ∧
       tokenReviewResult (api { client := cl, token := tok, audiences := aud }) = some k ∧
       srv.nodeAuth = some na ∧ (k.podNamespace, k.podSA) ∈ na.trusted ∧
       lookupCluster (clusterID ctx) na.clusters = some slot ∧ slot.active = some all ∧
@@ -323,6 +328,17 @@ theorem impersonation_through_kube {κ : Type} {g : Fixes} (hg : g.comma = true)
   cases hs'
   have hk2 : caller.kube = k := by rw [hcal]
   rw [hk2] at htr hcp huid hsa
+  have hid : clusterIDOf t hdr = clusterID ctx := by
+    subst ht; subst hhdr
+    unfold clusterIDOf clusterID
+    cases ctx.clusterIDs with
+    | none => rfl
+    | some l =>
+      match l with
+      | [] => rfl
+      | [x] => rfl
+      | _ :: _ :: _ => rfl
+  rw [hid] at hcl
   refine ⟨tok, cl, k, na, slot, all, itd, ns, sa, cp, d, htok, hcl, hk, hna, htr, hl, hact, hp, hcp, huid, hsa, hnode, hld, ?_⟩
   rw [hsan]
   have hpre := parseIdentity_sound hp
